@@ -103,7 +103,7 @@ def analyse_shape(check, L, shape, direction, dims):
         d = ["; ".join(f"{k}={v}" for k, v in rec["decisions"])[:400]]
         f, f0, f1 = row(n["theta"]), row(n["f0"]), row(n["f1"])
         if f is None or f0 is None or f1 is None:
-            check.violation("R1", f"{shape}:opaque-curve", f"{label}: the curve function does not evaluate to three coordinates ({n['theta']!r})", d)
+            check.undecided("R1", f"{label}: the curve function does not evaluate to three coordinates the analysis can follow ({n['theta']!r})")
             continue
         # ---------------- expected geometry
         if shape in ("arc", "circle", "helix"):
@@ -216,7 +216,7 @@ def arc_radius_centre(check, L, rec, direction, label, d):
     centre = arcs[0][1][2] if len(arcs[0][1]) > 2 else arcs[0][2].get("center")
     items = list(centre.items) if isinstance(centre, (Tup, NT)) else None
     if not items or len(items) < 2 or not all(isinstance(x, Num) for x in items[:2]):
-        check.violation("R3", "arc_radius:centre-opaque", f"{label}: the centre handed to arc() is {centre!r}", d)
+        check.undecided("R3", f"{label}: the centre handed to arc() is {centre!r}, which the analysis cannot follow")
         return
     # the sign of the requested radius, from whatever comparisons of it the path made (zero is rejected before)
     facts_r = {k: v for k, v in rec["decisions"] if k in ("cmp:Gt:arg.radius", "cmp:Lt:arg.radius", "cmp:Eq:arg.radius", "sign:arg.radius")}
@@ -322,7 +322,7 @@ def filter_rule(check, L, n_samples=5):
         r = path.value
         got = list(r.items) if isinstance(r, ArrV) else None
         if got is None:
-            check.violation("R4", "filter:opaque", f"_filter_segments returns {r!r} for five samples", d)
+            check.undecided("R4", f"_filter_segments returns {r!r} for five samples: the analysis does not model how it is built")
             continue
         idx = [pts.index(p) if p in pts else None for p in got]
         if None in idx or idx != sorted(set(idx)):
